@@ -75,3 +75,8 @@ CORPUS += [
     M("n-error-reason-as-hex", "msmart/lan.py", '            raise ProtocolError("Error packet received.")',
       '            reason = packet[8:].tobytes().rstrip(b"\\x00")\n            raise ProtocolError("Error packet received: " + reason.hex())', "S"),
 ]
+# round 11: a predicate that depends on the transport's state is peer-decided; asserting it after an await is an AssertionError the peer can cause
+CORPUS += [
+    M("authenticated-requires-alive", "msmart/lan.py", "        if datetime.now(timezone.utc) > self._local_key_expiration:\n            _LOGGER.debug(\"Authentication with %s has expired.\", self.peer)",
+      "        if not self.alive:\n            return False\n\n        if datetime.now(timezone.utc) > self._local_key_expiration:\n            _LOGGER.debug(\"Authentication with %s has expired.\", self.peer)"),
+]
